@@ -286,12 +286,13 @@ def codec_stream(ctx):
     quick = ctx.tier == "quick"
     rng = random.Random(ctx.seed * 29 + 5)
     blobs = [{"seed": 1, "len": 0}, {"seed": 2, "len": 1}, {"seed": 3, "len": 512, "kind": "zeros"},
-             {"seed": 4, "len": rng.choice([65535, 65536, 70001])}, {"seed": 5, "len": rng.choice([200000, 262145]), "kind": "text"}]
+             {"seed": 4, "len": rng.choice([65535, 65536, 70001])}, {"seed": 5, "len": rng.choice([200000, 262145]), "kind": "text"}, {"seed": 6, "len": 300000, "kind": "text"}]
     if not quick:
-        blobs += [{"seed": 6, "len": 1 << 20}, {"seed": 7, "len": 4194305, "kind": "zeros"}, {"seed": 8, "len": 511}, {"seed": 9, "len": 513, "kind": "text"}]
+        blobs += [{"seed": 16, "len": 1 << 20}, {"seed": 7, "len": 4194305, "kind": "zeros"}, {"seed": 8, "len": 511}, {"seed": 9, "len": 513, "kind": "text"}]
     jobs = []
     for comp in COMPS:
-        for enc in (("", "age") if quick else ("", "age", "pgp")):
+        # quick: OpenPGP only under the read-ahead (parallel) decompressors, whose reads after the end it must survive
+        for enc in ((("", "age", "pgp") if comp.startswith("parallel") else ("", "age")) if quick else ("", "age", "pgp")):
             jobs.append(dict(comps=[comp], levels=LEVELS, encs=[enc], sigs=["", "minisign", "pgp"],
                              rs=[1, 20, 128, 512] if quick else [1, 2, 3, 7, 20, 64, 128, 256, 512, 2048, 8192], regular=[True, False], blobs=blobs))
     jobs = [j for j in streams.replay_override(ctx, "job", jobs) if "comps" in j]
